@@ -215,8 +215,10 @@ pub fn run_case(case: &Case, ns: &'static Namespace<'static>) -> Outcome {
     let scenario = case.scenario.as_str();
     match scenario {
         "filter-parse" | "filter-parse-capi" => {
-            let fuel = if scenario == "filter-parse" { fuel_budget(len) } else { 0 };
-            let (caught, ticks) = guarded(fuel, || -> Result<String, String> {
+            // below the extern "C" frame an unwind is impossible: there the step counter reports on
+            // stderr and aborts (the driver classifies the child's end as non-termination)
+            let fuel = fuel_budget(len);
+            let (caught, ticks) = guarded_with(fuel, scenario == "filter-parse-capi", || -> Result<String, String> {
                 if scenario == "filter-parse" {
                     match std::str::from_utf8(&doc) {
                         Ok(s) => parse_rust(s),
@@ -273,9 +275,21 @@ pub fn run_case(case: &Case, ns: &'static Namespace<'static>) -> Outcome {
             let text = String::from_utf8_lossy(&doc).into_owned();
             let seed = case.extra.get("store_seed").and_then(|v| v.as_u64()).unwrap_or(0);
             let p_mutate = case.extra.get("p_mutate").and_then(|v| v.as_u64()).unwrap_or(0);
-            let filter = match Filter::try_from(text.as_str()) {
-                Ok(f) => f,
-                Err(_) => {
+            let (parsed, _) = guarded(fuel_budget(len), || Filter::try_from(text.as_str()));
+            let filter = match parsed {
+                Caught::Done(Ok(f)) => f,
+                Caught::Fuel { site, used } => {
+                    out.violate(
+                        "C09 non-termination filter-parse fuel".into(),
+                        format!("{used} lexer/scanner steps (budget {}) for a {len}-byte filter, last tick site {site}: the parser does not terminate", fuel_budget(len)),
+                    );
+                    return out;
+                }
+                Caught::Panic { msg, loc } => {
+                    out.violate(format!("C09 panic {} {}", loc_class(&loc), msg_class(&msg)), format!("panicked at {loc}: {msg}"));
+                    return out;
+                }
+                _ => {
                     out.fingerprint = 1;
                     return out;
                 }
